@@ -85,6 +85,23 @@ Section Pipeline.
   (* Report.IgnoreDirectives of a collect run (WithExportAggregates) *)
   Definition exported_dirs (part : list File) : gomap := carry (results_of part).
 
+  (* ---- handing directives from run to run (Report.IgnoreDirectives -> WithIgnoreDirectives) ----
+     Lint:  ignoreDirectives := {}
+            maps.Copy(ignoreDirectives, l.ignoreDirectives)            (what WithIgnoreDirectives provided)
+            maps.Copy(ignoreDirectives, regoReport.IgnoreDirectives)   (the files linted in this run)
+     [dirs_update old new] is that second copy as an explicit map update: every entry of [new] REPLACES the entry
+     [old] has for the same file.  regoReport.IgnoreDirectives has an entry for every file the run linted -- also
+     for a file without any directive, whose entry is the empty object ([carry] sets one per finished file) -- so a
+     file linted in the current run replaces its provided entry even when its new directive map is empty.
+     The same update is what a client does with an exported map (`for f, d := range rep.IgnoreDirectives
+     { dirs[f] = d }`) and what cache.SetIgnoreDirectives does after Clear. *)
+  Definition dirs_update (old new : gomap) : gomap :=
+    fold_left (fun g fo => gm_set g (fst fo) (snd fo)) new old.
+
+  (* the directive map the aggregate report of one Lint call sees: provided [given], the run lints [own] *)
+  Definition lint_dirs (given : gomap) (own : list File) : gomap :=
+    dirs_update given (exported_dirs own).
+
   (* collect every part with WithCollectQuery + WithExportAggregates, merge in the order of the list, then
      Lint with WithAggregates(merged).WithIgnoreDirectives(merged directives) and no input *)
   Definition two_phase (parts : list (list File)) : list violation :=
